@@ -15,7 +15,8 @@
 // truthiness table) and, for the property itself, oracles that know nothing of
 // the model: crash observation, the coherence laws evaluated on origami's own
 // results (truthiness alike in all contexts, == symmetric, != / !== complements,
-// <=> agrees with < and >, / float, zero divisor is an error) and a Go reference
+// <=> agrees with < and >, <= is < or ==, >= is > or ==, a < b is b > a, == implies
+// <=> 0, / float, zero divisor is an error) and a Go reference
 // of the documented results (ref.go) on the documented domain.
 package c03
 
@@ -405,6 +406,9 @@ func showOut(o Out) string {
 	return o.Kind
 }
 
+func eqTrue(o Out) bool { b, ok := boolOf(o); return ok && b }
+func ok1e(o Out) bool   { _, ok := boolOf(o); return ok }
+
 func boolOf(o Out) (bool, bool) {
 	if o.Kind == "val" && o.Val.K == "b" {
 		return o.Val.B, true
@@ -466,6 +470,26 @@ func (r *runner) laws(vals []V, t table) {
 			}
 			if !agree {
 				r.viol("cmp-lt:"+pairClasses(a, b), a.Show()+" <=> "+b.Show()+" is "+showOut(cm)+" but < is "+showOut(lt)+" and > is "+showOut(gt), mk("cmp", a, b))
+			}
+			// the seven comparison operators read one comparison (data.LooseCompare): <= is < or ==,
+			// >= is > or ==, a < b is b > a, == implies <=> 0
+			if le, ok := t[tkey("le", a, b)]; ok {
+				ge := t[tkey("ge", a, b)]
+				c.Hit("law:le-ge")
+				lb, okle := boolOf(le)
+				gb, okge := boolOf(ge)
+				if !(okl && okg && ok1e(eq) && okle && okge && lb == (l1 || eqTrue(eq)) && gb == (g1 || eqTrue(eq))) {
+					r.viol("le-ge:"+pairClasses(a, b), a.Show()+" <= "+b.Show()+" is "+showOut(le)+", >= is "+showOut(ge)+" but < is "+showOut(lt)+", > is "+showOut(gt)+", == is "+showOut(eq), mk("le", a, b))
+				}
+			}
+			tg := t[tkey("gt", b, a)]
+			c.Hit("law:lt-gt-mirror")
+			if !sameOutcome(lt, tg) {
+				r.viol("lt-gt-mirror:"+sortedClasses(a, b), a.Show()+" < "+b.Show()+" is "+showOut(lt)+" but "+b.Show()+" > "+a.Show()+" is "+showOut(tg), mk("lt", a, b))
+			}
+			c.Hit("law:eq-cmp")
+			if eqTrue(eq) && !(cm.Kind == "val" && cm.Val.K == "i" && cm.Val.I == 0) {
+				r.viol("eq-cmp:"+pairClasses(a, b), a.Show()+" == "+b.Show()+" is true but <=> is "+showOut(cm), mk("cmp", a, b))
 			}
 			if isNum(a) && isNum(b) {
 				q := t[tkey("quo", a, b)]
@@ -699,7 +723,7 @@ func (r *runner) matrixLawsOnly(vals []V) {
 	t := table{}
 	var batch []Case
 	for i := range vals {
-		for _, op := range []string{"eq", "ne", "seq", "sne", "lt", "gt", "cmp", "quo", "rem"} {
+		for _, op := range []string{"eq", "ne", "seq", "sne", "lt", "le", "gt", "ge", "cmp", "quo", "rem"} {
 			for j := range vals {
 				b := vals[j]
 				batch = append(batch, Case{Kind: "bin", Op: op, A: vals[i], B: &b})
